@@ -232,3 +232,13 @@ reg('C21', engine='llsym',
     note='Trusted: clang IR, llsym semantics; CPython runs tp_dealloc/tp_finalize once and collects cycles through tp_traverse. '
          'GC histories themselves are not explored.',
     technique='symbolic execution of LLVM IR, one step from an arbitrary object state (solver-forked)')
+
+reg('C22', engine='llsym',
+    text='Partial, rely/guarantee style: the real errno get/set functions and the real call brackets (cdata_call, '
+         'invoke_callback, cffi_call_python, global-variable fetch) run with errno and the saved value as this thread\'s '
+         'symbolic cells and errno havocked at every point where other code of the thread can run: errno at C entry == '
+         'value assigned, ffi.errno afterwards == errno at C return, for every value including 0; the saved cell must be '
+         'thread_local in the IR.',
+    note='Trusted: per-thread storage of __thread variables and errno (compiler/libc); generated API-mode wrappers use the same '
+         'exported save/restore pair.',
+    technique='symbolic execution of LLVM IR with environment havoc of errno, SMT (z3 bit-vectors)')
